@@ -111,6 +111,12 @@ func contains(l []string, s string) bool {
 	return false
 }
 
+func (in *injector) closeFaultsFired() int {
+	in.mu.Lock()
+	defer in.mu.Unlock()
+	return in.closeFaults
+}
+
 type ruleState struct {
 	seen  int
 	fired int
@@ -130,6 +136,9 @@ type injector struct {
 	total  int
 	fired  map[string]int // "class:kind" -> count
 	ops    int
+	// closeFaults: injected errors on File.Close (the handle below errorfs then
+	// stays open although Pebble closed it)
+	closeFaults int
 
 	// suppress, if set, is consulted when a fault is about to fire; if it returns
 	// true the fault does not happen (known-finding classes excluded by
@@ -259,6 +268,10 @@ func (in *injector) MaybeError(op errorfs.Op) error {
 	}
 	in.total++
 	in.fired[cls+":"+kind]++
+	if op.Kind == errorfs.OpFileClose {
+		// the underlying handle stays open although Pebble did close it
+		in.closeFaults++
+	}
 	if debugFire != nil {
 		debugFire(op)
 	}
